@@ -223,9 +223,32 @@ def i_str(*a, **k):
     return NotImplemented
 
 
-@intrinsic(repr, format, ascii)
+@intrinsic(repr, ascii)
 def i_repr(*a, **k):
     if a and isinstance(a[0], Sym):
+        return "<sym>"
+    return NotImplemented
+
+
+@intrinsic(format)
+def i_format(x, spec=""):
+    if isinstance(x, SymInt) and spec == "x":
+        # lower-case hex rendering of a non-negative integer: fork on the number of digits (<= 16)
+        C = core.CTX
+        if C.branch(x.t < 0):
+            raise Unsupported("format(negative symbolic, 'x')")
+        for k in range(1, 17):
+            if C.branch(x.t < 16 ** k):
+                # digit decomposition with fresh variables: x == sum d_i * 16^i, 0 <= d_i < 16 (keeps the queries linear)
+                ds = [z3.Int(C.fresh_name("hexdigit")) for _ in range(k)]
+                C.add(z3.And([z3.And(d >= 0, d < 16) for d in ds] + [x.t == z3.Sum([ds[i] * (16 ** i) for i in range(k)])]))
+                out = []
+                for i in range(k - 1, -1, -1):
+                    d = ds[i]
+                    out.append(SymChar(SymInt(S(z3.If(d < 10, d + 48, d + 87)), ub=128)))
+                return SymStr(out)
+        raise Unsupported("format(symbolic >= 2^64, 'x')")
+    if isinstance(x, Sym):
         return "<sym>"
     return NotImplemented
 
